@@ -147,6 +147,33 @@ def check(ctx):
             exp = strip_casts(dg.expr(rec[0][1]["args"][1])); new = strip_casts(dg.expr(rec[0][1]["args"][2]))
             okr = norm(new) == norm(pos) and exp[0] == "bin" and exp[1].rstrip("!~") == "Add" and {norm(strip_casts(exp[2])), norm(strip_casts(exp[3]))} == {norm(pos), ("const", 1)}
         ctx.ob("R09.3", f"{k}|recedes-on-empty", okr, body.loc(rec[0][0]) if rec else site, "on the empty answer the cursor is put back with CAS (cursor+1 -> cursor): the next poll sees the same position again (no event skipped)")
+        if okr:
+            # the recede is retried until it succeeds: the loop around the CAS is left only on its Ok edge (leaving on a failed CAS keeps the cursor one ahead: an event is skipped)
+            rb = rec[0][0]
+            hs = [h for h, bl in body.loops.items() if rb in bl]
+            good_l = bool(hs)
+            if hs:
+                h = min(hs, key=lambda x_: len(body.loops[x_]))
+                ok_edges = {(tb, ok_t) for (tb, ok_t, err_t) in util.option_test_edges(body, dg, rec[0][1]["dst"]["l"]) if ok_t != err_t}
+                exits = [(x_, y_) for (x_, y_) in body.loop_exits(h) if y_ in body.can_return]
+                good_l = bool(exits) and all(e_ in ok_edges for e_ in exits)
+            ctx.ob("R09.3", f"{k}|recede-retried-until-it-succeeds", good_l, body.loc(rb), "the recede CAS sits in a loop that is left only when the CAS succeeded")
+        # the empty answer is reported: the report-empty callback is invoked on the empty edge, once (the old-events stream ends through it: R09.5)
+        def _callee_param(c):
+            l_ = op_local(c["args"][0])
+            for _ in range(6):
+                if l_ is None: return ""
+                if 1 <= l_ <= body.f["argc"]: return body.lname(l_) or ""
+                d_ = body.single_def(l_)
+                if d_ is None or d_[1] == "T": return ""
+                rv_ = d_[2]
+                l_ = rv_[2]["l"] if rv_[0] in ("Ref", "RawPtr") else (rv_[1][1]["l"] if rv_[0] == "Use" and rv_[1][0] in ("c", "m") else None)
+            return ""
+        rep = [(bb, c) for (bb, c) in body.calls if c.get("f") in ("std::ops::Fn::call", "std::ops::FnMut::call_mut", "std::ops::FnOnce::call_once") and c["args"] and _callee_param(c).startswith("report_empty")]
+        rset = {bb for (bb, _) in rep}
+        lo_r, hi_r, _il = util.count_on_paths(body, lambda bb: bb in rset, start=empty_t)
+        ctx.ob("R09.3", f"{k}|reports-emptiness", bool(rep) and (lo_r, hi_r) == (1, 1), body.loc(rep[0][0]) if rep else site,
+               f"report_empty_fn is invoked {lo_r}..{hi_r} times on the paths of the empty answer; required exactly once")
         nones = [bb for bb in sorted(body.reachable) for st in body.stmts(bb) if st[0] == "A" and not st[1]["p"] and st[1]["l"] == 0 and st[2][0] == "Agg" and st[2][1][0] == "Adt" and st[2][1][2] == "None"]
         nones += [bb for (bb, c_) in body.calls if (c_.get("f") or "").endswith("FromResidual::from_residual") and not c_["dst"]["p"] and c_["dst"]["l"] == 0]      # `opt?` answering None
         ctx.ob("R09.3", f"{k}|none-only-when-empty", bool(nones) and all(util.only_via(body, dg, b, empty_t, item_t, nb) for nb in nones), site, "None is answered only on the empty edge")
